@@ -1,7 +1,6 @@
 CONSTANTS
-  NP = 2
-  NA = 1
-  Quick = TRUE
+  NTags = 2
+  NCallers = 1
   PNames <- MC_PNames
   ANames <- MC_ANames
   PRates <- MC_PRates
@@ -16,7 +15,7 @@ CONSTANTS
   UserParams <- MC_UserParams
   LockNames <- MC_LockNames
   CallerIds <- MC_CallerIds
-  Phased = FALSE
+  Phased = TRUE
 INIT Init
 NEXT Next
 VIEW View
@@ -25,9 +24,8 @@ INVARIANT AgreePointsInv
 INVARIANT AgreeFramesInv
 INVARIANT AgreeAnalogsInv
 INVARIANT AgreeRateInv
-INVARIANT AgreeLabelsInv
-INVARIANT ConformingAccepted
 PROPERTY RefusedUnchanged
 PROPERTY FrameStoreOK
 PROPERTY ColumnsOK
+PROPERTY CallerIndependent
 CHECK_DEADLOCK FALSE
